@@ -46,6 +46,7 @@ static void remember(LHAFileHeader *h) { (void) h; }
 /* ---------- callback stream ---------- */
 static uint8_t *adata; static size_t alen, apos;
 static unsigned long src_calls, src_bytes, src_budget;
+static long brk_at = -1; static size_t max_chunk;
 static long err_after;          /* > 0: from the (err_after + 1)-th callback on, reading fails (-1) and skipping fails (0), for good */
 static void budget(void)
 {
@@ -61,6 +62,11 @@ static int cb_read(void *h, void *buf, size_t n)
 	(void) h;
 	src_calls++; src_bytes += n; budget();
 	if (err_after > 0 && (long) src_calls > err_after) return -1;
+	if (brk_at >= 0) {
+		if ((long) apos >= brk_at) return -1;
+		if ((long) (apos + k) > brk_at) k = (size_t) brk_at - apos;
+	}
+	if (max_chunk && k > max_chunk) k = max_chunk;
 	memcpy(buf, adata + apos, k); apos += k;
 	return (int) k;
 }
@@ -69,6 +75,7 @@ static int cb_skip(void *h, size_t n)
 	(void) h;
 	src_calls++; budget();
 	if (err_after > 0 && (long) src_calls > err_after) return 0;
+	if (brk_at >= 0 && (long) (apos + n) > brk_at) return 0;
 	if (alen - apos < n) { apos = alen; return 0; }
 	apos += n;
 	return 1;
@@ -80,6 +87,7 @@ static int cb_skip_keep(void *h, size_t n)
 	(void) h;
 	src_calls++; budget();
 	if (err_after > 0 && (long) src_calls > err_after) return 0;
+	if (brk_at >= 0 && (long) (apos + n) > brk_at) return 0;
 	if (alen - apos < n) return 0;
 	apos += n;
 	return 1;
@@ -176,7 +184,16 @@ int main(int argc, char **argv)
 		verif_alloc_reset(); verif_fail_at = failk; verif_alloc_log = f_alloc;
 		LHAInputStream *st = NULL; FILE *fh = NULL; int is_popen = 0;
 		/* stream kinds cbE<k> / cbnsE<k>: the source fails for good after k callbacks */
-		err_after = 0; { char *e = strchr(skind, 'E'); if (e) { err_after = atol(e + 1); *e = 0; } }
+		/* cb...B<f>: the source breaks at byte offset f - the read that crosses f hands over the bytes in front of it (a short read), every
+		   later one fails (-1); cb...S<m>: never more than m bytes per read (short reads, no failure) */
+		err_after = 0; brk_at = -1; max_chunk = 0;
+		if (!strncmp(skind, "cb", 2)) {
+			char *e = strpbrk(skind, "EBS");
+			if (e) {
+				if (*e == 'E') err_after = atol(e + 1); else if (*e == 'B') brk_at = atol(e + 1); else max_chunk = (size_t) atol(e + 1);
+				*e = 0;
+			}
+		}
 		if (!strcmp(skind, "path")) LIB(st = lha_input_stream_from(arc));
 		else if (!strcmp(skind, "FILE")) { fh = fopen(arc, "rb"); LIB(st = lha_input_stream_from_FILE(fh)); }
 		else if (!strcmp(skind, "pipe")) { char cmd[4200]; snprintf(cmd, sizeof cmd, "cat '%s'", arc); fh = popen(cmd, "r"); is_popen = 1; LIB(st = lha_input_stream_from_FILE(fh)); }
